@@ -2896,13 +2896,23 @@ protected:
             format( valCopy);
             auto const  pos = boost::lexical_cast< size_t>( valCopy);
             if (pos >= mDestVar.size())
-               mDestVar.resize( pos * 1.5);
+            {
+               if (pos >= mDestVar.max_size())
+                  throw std::length_error( "position " + std::to_string( pos)
+                     + " is too big for variable '" + mVarName + "'");
+               mDestVar.resize( (pos + 1) * 1.5);
+            } // end if
             mDestVar[ pos] = !mResetFlags;
          } else
          {
             auto const  pos = boost::lexical_cast< size_t>( listVal);
             if (pos >= mDestVar.size())
-               mDestVar.resize( pos * 1.5);
+            {
+               if (pos >= mDestVar.max_size())
+                  throw std::length_error( "position " + std::to_string( pos)
+                     + " is too big for variable '" + mVarName + "'");
+               mDestVar.resize( (pos + 1) * 1.5);
+            } // end if
             mDestVar[ pos] = !mResetFlags;
          } // end if
       } // end for
